@@ -241,6 +241,7 @@ def plan(tier: str):
     items.append(("xref", ("a", "b.a")))
     items.append(("xref", ("", "a")))
     items.append(("xref", ("a.b", "")))
+    items.append(("multi", None))
     if tier == "thorough":
         names = [a.name for a in AT.ATOMS]
         for i, (x, y) in enumerate(itertools.combinations(names, 2)):
@@ -255,6 +256,11 @@ def run_item(kind: str, arg, t: Tally) -> List[Violation]:
         label = sorted(names) if len(names) <= 2 else ["everything"]
         fails = check_program(files, [pkg], label, t)
         case = {"kind": "atoms", "atoms": list(names), "package": pkg}
+    elif kind == "multi":
+        files = dict(AT.MULTI_FILES)
+        label = ["multi-file-program"]
+        fails = check_program(files, list(AT.MULTI_PACKAGES), label, t)
+        case = {"kind": "multi"}
     else:
         r, tg = arg
         files, _ = c13.pair_program(r, tg)
@@ -311,4 +317,6 @@ def replay(case: dict) -> List[Violation]:
     t = Tally()
     if case["kind"] == "atoms":
         return run_item("atoms", (tuple(case["atoms"]), case["package"]), t)
+    if case["kind"] == "multi":
+        return run_item("multi", None, t)
     return run_item("xref", (case["referrer"], case["target"]), t)
